@@ -1,6 +1,293 @@
-(** Properties_C08.v — statements only (stub while the proofs are being built). *)
-From Coq Require Import String List Bool ZArith QArith.
-From LC Require Import UnitsDefs UnitsProofs.
-Example C08_stub : is_std_name "metre" = true.
-Proof. reflexivity. Qed.
-Print Assumptions C08_stub.
+(** Properties_C08.v — statements only.  Each theorem is closed by [exact <lemma of UnitsProofs>] and followed by
+    Print Assumptions.  C08: unit compatibility and scaling obey the algebra of units.
+
+    Model: UnitsDefs.v (units.cpp: isBaseUnitWithHistory, performTestWithHistory, updateUnitsMap, defineUnitsMap,
+    Units::compatible, updateUnitMultiplier, Units::scalingFactor, Units::equivalent; validator.cpp: unitsAreEquivalent,
+    updateBaseUnitCount; analyser.cpp: updateUnitsMap, updateUnitsMultiplier) over Q, multipliers as exact powers of ten
+    (their log10 is the rational carried by the model), fuelled recursion, tables regenerated from /repo/src.
+    [fx : fixes] selects the code as it is ([unfixed]) or with the two proposed repairs; theorems quantify over [fx]
+    where they hold for both.  A scaling factor is [FPow q] = 10^q or [FZero] = 0.0. *)
+From Coq Require Import String List Bool ZArith QArith Permutation Relations.
+From LC Require Import UnitsDefs UnitsSpec UnitsProofs.
+From LCGen Require Import UnitTables PrefixTable.
+Import ListNotations.
+Local Open Scope string_scope.
+Local Open Scope Q_scope.
+
+(** ** Tables (regenerated from utilities.h / utilities.cpp / units.cpp on every run) *)
+
+(** Every standard unit decomposes over base units only; the multiplier list has the same keys; the base units are the 8 of
+    CellML and are what Units::isBaseUnit(name) tests; the 31 standard units have the dimensions and scales of the
+    hand-written SI reference table; the prefixes are exactly the 20 SI prefixes with their powers. *)
+Theorem C08_tables_ok : tables_check = true.
+Proof. exact UnitsProofs.tables_ok. Qed.
+Print Assumptions C08_tables_ok.
+
+Theorem C08_std_units_over_base : forall n k e, In (k, e) (std_components n) -> In k base_units_list.
+Proof. exact UnitsProofs.std_components_over_base. Qed.
+Print Assumptions C08_std_units_over_base.
+
+(** ** compatible is an equivalence relation on defined units *)
+
+Theorem C08_compatible_refl : forall fx f w a, is_defined f w (fst a) (snd a) = Ok true ->
+  compatible fx f w (Some a) (Some a) = Ok true.
+Proof. exact UnitsProofs.compatible_refl. Qed.
+Print Assumptions C08_compatible_refl.
+
+Theorem C08_compatible_sym : forall fx f w a b, compatible fx f w a b = Ok true -> compatible fx f w b a = Ok true.
+Proof. exact UnitsProofs.compatible_sym. Qed.
+Print Assumptions C08_compatible_sym.
+
+Theorem C08_compatible_trans : forall fx f w a b c,
+  compatible fx f w a b = Ok true -> compatible fx f w b c = Ok true -> compatible fx f w a c = Ok true.
+Proof. exact UnitsProofs.compatible_trans. Qed.
+Print Assumptions C08_compatible_trans.
+
+(** ... and it only ever holds between two non-null, defined units. *)
+Theorem C08_compatible_true_defined : forall fx f w a b, compatible fx f w a b = Ok true ->
+  exists a' b', a = Some a' /\ b = Some b' /\ is_defined f w (fst a') (snd a') = Ok true /\ is_defined f w (fst b') (snd b') = Ok true.
+Proof. exact UnitsProofs.compatible_true_defined. Qed.
+Print Assumptions C08_compatible_true_defined.
+
+(** A defined units always has an exponent map (the gate in Units::compatible excludes every null dereference and the
+    fuel that sufficed for isDefined suffices for the map). *)
+Theorem C08_defined_map_ok : forall fx f w u, is_defined f w (fst u) (snd u) = Ok true ->
+  exists m, define_units_map fx f w u = Ok m.
+Proof. exact UnitsProofs.defined_map_ok. Qed.
+Print Assumptions C08_defined_map_ok.
+
+(** ** compatible holds exactly when the two units reduce to the same exponents of base units *)
+
+(** The comparison of Units::compatible (sizes, then entry by entry) decides extensional equality of the two maps
+    returned by defineUnitsMap, from which zero exponents and "dimensionless" have been erased. *)
+Theorem C08_compatible_iff_same_maps : forall fx f w a b ma mb,
+  is_defined f w (fst a) (snd a) = Ok true -> is_defined f w (fst b) (snd b) = Ok true ->
+  define_units_map fx f w a = Ok ma -> define_units_map fx f w b = Ok mb ->
+  (compatible fx f w (Some a) (Some b) = Ok true <-> forall k, get ma k == get mb k).
+Proof. exact UnitsProofs.compatible_iff_same_maps. Qed.
+Print Assumptions C08_compatible_iff_same_maps.
+
+(** With the import exponent passed on (F6), or in a world without imports, that map is the dimension [dim] of the units
+    (UnitsSpec.v: product of children, child = referenced units ^ exponent, an import is the imported units). *)
+Theorem C08_map_is_dimension : forall fx f w u, fx_import fx = true \/ import_free w ->
+  is_defined f w (fst u) (snd u) = Ok true ->
+  exists m, define_units_map fx f w u = Ok m /\ forall k, k <> "dimensionless" -> get m k == dim f w (fst u) (snd u) k.
+Proof. exact UnitsProofs.map_is_dimension. Qed.
+Print Assumptions C08_map_is_dimension.
+
+Theorem C08_compatible_iff_same_exponents : forall fx f w a b, fx_import fx = true \/ import_free w ->
+  is_defined f w (fst a) (snd a) = Ok true -> is_defined f w (fst b) (snd b) = Ok true ->
+  (compatible fx f w (Some a) (Some b) = Ok true <->
+   forall k, k <> "dimensionless" -> dim f w (fst a) (snd a) k == dim f w (fst b) (snd b) k).
+Proof. exact UnitsProofs.compatible_iff_same_exponents. Qed.
+Print Assumptions C08_compatible_iff_same_exponents.
+
+(** The code as it is violates it: I2 = (imported I)^2, I = metre, against metre^2 (DESIGN row 23; finding
+    C08-import-exponent-dropped). *)
+Theorem C08_compatible_iff_same_exponents_refuted :
+  exists f w a b,
+    is_defined f w (fst a) (snd a) = Ok true /\ is_defined f w (fst b) (snd b) = Ok true /\
+    (forall k, k <> "dimensionless" -> dim f w (fst a) (snd a) k == dim f w (fst b) (snd b) k) /\
+    compatible unfixed f w (Some a) (Some b) = Ok false.
+Proof. exact UnitsProofs.compatible_iff_same_exponents_refuted. Qed.
+Print Assumptions C08_compatible_iff_same_exponents_refuted.
+
+(** ** independent of the order of unit children *)
+
+(** Permuting the unit children of any units of the world changes no units' exponent map. *)
+Theorem C08_map_perm_invariant : forall fx f w mi0 n0 l l' u m,
+  lookup w mi0 n0 = Some (Defs l) -> Permutation l l' ->
+  define_units_map fx f w u = Ok m ->
+  exists m', define_units_map fx f (set_units w mi0 n0 (Defs l')) u = Ok m' /\ forall k, get m k == get m' k.
+Proof. exact UnitsProofs.map_perm_invariant. Qed.
+Print Assumptions C08_map_perm_invariant.
+
+(** Hence compatible is unchanged too — as long as Units::isDefined() still answers true ... *)
+Theorem C08_compatible_perm_partial : forall fx f w w' a b, perm_world w w' ->
+  compatible fx f w (Some a) (Some b) = Ok true ->
+  is_defined f w' (fst a) (snd a) = Ok true -> is_defined f w' (fst b) (snd b) = Ok true ->
+  compatible fx f w' (Some a) (Some b) = Ok true.
+Proof. exact UnitsProofs.compatible_perm_partial. Qed.
+Print Assumptions C08_compatible_perm_partial.
+
+(** ... which it does not always: the import history of performTestWithHistory is never popped, so after an import of an
+    import a later imported child looks like an import cycle.  u = A.B is "undefined", u = B.A is defined
+    (finding C08-import-history-false-cycle).  The unconditional statement "compatible fx f w a b = compatible fx f w' a b
+    for every permutation" is therefore false on the code as it is, and is not claimed. *)
+Theorem C08_compatible_perm_refuted :
+  exists fx f w mi n l l' u,
+    lookup w mi n = Some (Defs l) /\ Permutation l l' /\
+    compatible fx f (set_units w mi n (Defs l')) (Some u) (Some u) = Ok true /\
+    compatible fx f w (Some u) (Some u) = Ok false /\
+    defined_sem f w (fst u) (snd u) = Ok true.
+Proof. exact UnitsProofs.compatible_perm_refuted. Qed.
+Print Assumptions C08_compatible_perm_refuted.
+
+(** isDefined() is sound w.r.t. "every reference resolves" (defined_sem), complete without imports, not complete with them. *)
+Theorem C08_is_defined_sound : forall f w mi name, is_defined f w mi name = Ok true -> defined_sem f w mi name = Ok true.
+Proof. exact UnitsProofs.is_defined_sound. Qed.
+Print Assumptions C08_is_defined_sound.
+
+Theorem C08_is_defined_complete_partial : forall f w mi n, import_free w ->
+  defined_sem f w mi n = Ok true -> is_defined f w mi n = Ok true.
+Proof. exact UnitsProofs.is_defined_complete_partial. Qed.
+Print Assumptions C08_is_defined_complete_partial.
+
+Theorem C08_is_defined_complete_refuted :
+  exists f w mi n, defined_sem f w mi n = Ok true /\ is_defined f w mi n = Ok false.
+Proof. exact UnitsProofs.is_defined_complete_refuted. Qed.
+Print Assumptions C08_is_defined_complete_refuted.
+
+(** ** independent of indirection through intermediate units *)
+
+(** [C08_map_is_dimension] above says the map of a units is [dim]; [dim] depends on a referenced units only through that
+    units' own [dim]: a reference contributes exponent x dimension of what is referenced, be it a standard unit, another
+    units of the model, or an imported units (which is the units it imports). *)
+Theorem C08_dim_compound : forall f' w mi n l k, lookup w mi n = Some (Defs l) -> is_base (S f') w mi n = Ok false ->
+  Nat.eqb (length l) 0 && is_std_name n = false ->
+  dim (S f') w mi n k = sumq (map (fun c => uc_exp c * (if is_std_name (uc_ref c) then std_dim (uc_ref c) k
+                                                       else dim f' w mi (uc_ref c) k)) l).
+Proof. exact UnitsProofs.dim_compound. Qed.
+Print Assumptions C08_dim_compound.
+
+Theorem C08_dim_import : forall f' w mi n mj r k, lookup w mi n = Some (Import mj r) -> is_base (S f') w mi n = Ok false ->
+  is_std_name n = false -> dim (S f') w mi n k = dim f' w mj r k.
+Proof. exact UnitsProofs.dim_import. Qed.
+Print Assumptions C08_dim_import.
+
+(** The code as it is: the map of I2 = (imported I)^2 has metre^1, its dimension is metre^2. *)
+Theorem C08_map_indirection_refuted :
+  exists f w u m, is_defined f w (fst u) (snd u) = Ok true /\ define_units_map unfixed f w u = Ok m /\
+                  ~ get m "metre" == dim f w (fst u) (snd u) "metre".
+Proof. exact UnitsProofs.map_indirection_refuted. Qed.
+Print Assumptions C08_map_indirection_refuted.
+(* NOT PROVED: a syntactic inlining theorem (replace a unit child referencing v by v's children with exponents multiplied);
+   it is a consequence of C08_map_is_dimension + C08_dim_compound that is not stated separately.
+   NOT PROVED: independence of [dim] from the amount of fuel above the depth of the closure. *)
+
+(** ** scalingFactor *)
+
+Theorem C08_factor_antisym : forall fx f w a b q, scaling_factor fx f w a b = Ok (FPow q) ->
+  exists q', scaling_factor fx f w b a = Ok (FPow q') /\ q + q' == 0.
+Proof. exact UnitsProofs.factor_antisym. Qed.
+Print Assumptions C08_factor_antisym.
+
+Theorem C08_factor_cocycle : forall fx f w a b c q1 q2,
+  scaling_factor fx f w a b = Ok (FPow q1) -> scaling_factor fx f w b c = Ok (FPow q2) ->
+  exists q3, scaling_factor fx f w a c = Ok (FPow q3) /\ q3 == q1 + q2.
+Proof. exact UnitsProofs.factor_cocycle. Qed.
+Print Assumptions C08_factor_cocycle.
+
+(** 0 exactly for incompatible (hence also undefined or null) units — or when a prefix is not convertible to an int. *)
+Theorem C08_factor_zero_iff : forall fx f w a b,
+  scaling_factor fx f w a b = Ok FZero <->
+  compatible fx f w a b = Ok false \/
+  (compatible fx f w a b = Ok true /\ exists a' b' r1 r2, a = Some a' /\ b = Some b' /\
+     mult_go fx f w (fst a') (snd a') = Ok r1 /\ mult_go fx f w (fst b') (snd b') = Ok r2 /\ (r1 = None \/ r2 = None)).
+Proof. exact UnitsProofs.factor_zero_iff. Qed.
+Print Assumptions C08_factor_zero_iff.
+
+Theorem C08_factor_zero_null : forall fx f w a b, a = None \/ b = None -> scaling_factor fx f w a b = Ok FZero.
+Proof. exact UnitsProofs.factor_zero_null. Qed.
+Print Assumptions C08_factor_zero_null.
+
+Theorem C08_factor_zero_undefined : forall fx f w a b,
+  is_defined f w (fst a) (snd a) = Ok false \/
+  (is_defined f w (fst a) (snd a) = Ok true /\ is_defined f w (fst b) (snd b) = Ok false) ->
+  scaling_factor fx f w (Some a) (Some b) = Ok FZero.
+Proof. exact UnitsProofs.factor_zero_undefined. Qed.
+Print Assumptions C08_factor_zero_undefined.
+
+(** positive (a power of ten) for compatible units whose prefixes convert, and then the difference of the two scales *)
+Theorem C08_factor_pos_compatible : forall fx f w a b l1 l2,
+  compatible fx f w (Some a) (Some b) = Ok true ->
+  mult_go fx f w (fst a) (snd a) = Ok (Some l1) -> mult_go fx f w (fst b) (snd b) = Ok (Some l2) ->
+  exists q, scaling_factor fx f w (Some a) (Some b) = Ok (FPow q) /\ q == l2 - l1.
+Proof. exact UnitsProofs.factor_pos_compatible. Qed.
+Print Assumptions C08_factor_pos_compatible.
+
+(** the ratio of the SI scales, under the property's own condition [si_cond] (prefixes and multipliers sit on unit children
+    of exponent 1), for both readings of a unit child ([inside]), provided no failure of the recursive call is swallowed by
+    the import branch ([imports_scale_ok]) and — on the code as it is — no units object is a bare gram / litre. *)
+Theorem C08_factor_is_si_ratio_partial : forall fx f w (inside : bool) a b q,
+  fx_std fx = true \/ no_bare_std_scaled w ->
+  si_cond f w (fst a) (snd a) = true -> si_cond f w (fst b) (snd b) = true ->
+  imports_scale_ok fx f w (fst a) (snd a) = true -> imports_scale_ok fx f w (fst b) (snd b) = true ->
+  scaling_factor fx f w (Some a) (Some b) = Ok (FPow q) ->
+  q == si_log inside f w (fst b) (snd b) - si_log inside f w (fst a) (snd a).
+Proof. exact UnitsProofs.factor_is_si_ratio_partial. Qed.
+Print Assumptions C08_factor_is_si_ratio_partial.
+
+(** outside the condition: (milli metre)^2 against metre^2 (also with both repairs) *)
+Theorem C08_factor_is_si_ratio_refuted :
+  exists fx f w a b q, si_cond f w (fst a) (snd a) = false /\
+    scaling_factor fx f w (Some a) (Some b) = Ok (FPow q) /\
+    ~ q == si_log false f w (fst b) (snd b) - si_log false f w (fst a) (snd a) /\
+    ~ q == si_log true f w (fst b) (snd b) - si_log true f w (fst a) (snd a).
+Proof. exact UnitsProofs.factor_is_si_ratio_refuted. Qed.
+Print Assumptions C08_factor_is_si_ratio_refuted.
+
+(** inside the condition, on the code as it is: a bare "litre" against metre^3 gives 10^0 (finding C08-bare-standard-unit-scale) *)
+Theorem C08_factor_is_si_ratio_bare_std_refuted :
+  exists f w a b q, si_cond f w (fst a) (snd a) = true /\ si_cond f w (fst b) (snd b) = true /\
+    imports_scale_ok unfixed f w (fst a) (snd a) = true /\ imports_scale_ok unfixed f w (fst b) (snd b) = true /\
+    scaling_factor unfixed f w (Some a) (Some b) = Ok (FPow q) /\
+    ~ q == si_log false f w (fst b) (snd b) - si_log false f w (fst a) (snd a).
+Proof. exact UnitsProofs.factor_is_si_ratio_bare_std_refuted. Qed.
+Print Assumptions C08_factor_is_si_ratio_bare_std_refuted.
+
+(** ** equivalent = compatible with factor 1 *)
+Theorem C08_equivalent_iff : forall fx f w a b,
+  equivalent fx f w a b = Ok true <->
+  compatible fx f w a b = Ok true /\ exists q, scaling_factor fx f w a b = Ok (FPow q) /\ q == 0.
+Proof. exact UnitsProofs.equivalent_iff. Qed.
+Print Assumptions C08_equivalent_iff.
+
+(** ** the validator's and the analyser's own reductions *)
+
+(** On the fragment [agree_cond] (non-standard names, no imports, every exponent 1, valid prefixes, a prefix/multiplier only
+    on a reference to a standard or base unit) the three log10 scales are equal. *)
+Theorem C08_three_agree_partial : forall fx f w mi n, agree_cond f w mi n = true ->
+  exists u v a, mult_go fx f w mi n = Ok (Some u) /\ val_scale f w mi n = Ok v /\ ana_scale f w mi n = Ok a /\
+                v == u /\ a == u.
+Proof. exact UnitsProofs.three_agree_partial. Qed.
+Print Assumptions C08_three_agree_partial.
+
+(** Outside it they differ (finding C08-three-formulas-disagree; DESIGN row 24): (milli metre)^2 ... *)
+Theorem C08_three_disagree_refuted :
+  exists fx f w mi n u v a, mult_go fx f w mi n = Ok (Some u) /\ val_scale f w mi n = Ok v /\ ana_scale f w mi n = Ok a /\
+                            ~ v == u /\ ~ a == u.
+Proof. exact UnitsProofs.three_disagree_refuted. Qed.
+Print Assumptions C08_three_disagree_refuted.
+
+(** ... and, with every exponent 1, kilo (metre.second): Units 10^3, validator and analyser 10^6. *)
+Theorem C08_three_disagree_exponent_one_refuted :
+  exists fx f w mi n u v a, mult_go fx f w mi n = Ok (Some u) /\ val_scale f w mi n = Ok v /\ ana_scale f w mi n = Ok a /\
+                            u == 3 # 1 /\ v == 6 # 1 /\ a == 6 # 1.
+Proof. exact UnitsProofs.three_disagree_exponent_one_refuted. Qed.
+Print Assumptions C08_three_disagree_exponent_one_refuted.
+(* NOT PROVED: that the validator's verdict (status of unitsAreEquivalent) equals Units::compatible on import-free defined
+   units; it is compared on every generated pair by the correspondence run and the oracle only. *)
+
+(** ** termination *)
+
+(** Cyclic units make the real reducers recurse until the stack is exhausted (known family K3).  On an acyclic world, fuel
+    above the number of units objects is never exhausted. *)
+Theorem C08_reducers_terminate : forall fx f w, acyclic w -> (world_size w < f)%nat ->
+  (forall a b, compatible fx f w a b <> OutOfFuel /\ scaling_factor fx f w a b <> OutOfFuel /\ equivalent fx f w a b <> OutOfFuel) /\
+  (forall mi n1 n2, val_equiv f w mi n1 n2 <> OutOfFuel /\ ana_equiv f w mi n1 n2 <> OutOfFuel) /\
+  (forall mi n, is_base f w mi n <> OutOfFuel /\ is_defined f w mi n <> OutOfFuel /\
+                define_units_map fx f w (mi, n) <> OutOfFuel /\ mult_go fx f w mi n <> OutOfFuel).
+Proof. exact UnitsProofs.reducers_terminate. Qed.
+Print Assumptions C08_reducers_terminate.
+
+(** ** non-vacuity of the hypotheses used above *)
+Example C08_nonvacuous :
+  compatible unfixed 5 w_mm (Some (0%nat, "mm_sq")) (Some (0%nat, "m2")) = Ok true /\
+  scaling_factor unfixed 5 w_mm (Some (0%nat, "mm_sq")) (Some (0%nat, "m2")) = Ok (FPow (6 # 1)) /\
+  equivalent unfixed 5 w_mm (Some (0%nat, "mm2")) (Some (0%nat, "mm2")) = Ok true /\
+  agree_cond 5 w_mm 0 "mm" = true /\ si_cond 5 w_mm 0 "mm" = true /\ imports_scale_ok unfixed 5 w_mm 0 "mm" = true /\
+  acyclic w_mm /\ (world_size w_mm < 5)%nat /\ import_free w_mm /\ no_bare_std_scaled w_mm /\
+  is_defined 5 w_import 0 "I2" = Ok true.
+Proof. exact UnitsProofs.nonvacuous. Qed.
+Print Assumptions C08_nonvacuous.
